@@ -345,6 +345,15 @@ pub fn gen_day(rng: &mut Rng) -> i64 {
             ymd(y, 12, 31) + rng.range(-7, 7)
         }
         4 => ymd(rng.range(1900, 9999) as i32, rng.range(1, 12) as u32, rng.range(1, 28) as u32),
+        7 => {
+            // century years (leap only when divisible by 400) and their Februaries
+            let y = *rng.pick(&[1900, 2000, 2100, 2200, 2300, 2400, 2500, 3000, 9900]);
+            if rng.chance(2, 3) {
+                ymd(y, 2, 1) + rng.range(0, 29)
+            } else {
+                ymd(y, rng.range(1, 12) as u32, 1) + rng.range(0, 27)
+            }
+        }
         5 => {
             // month ends
             let y = rng.range(2018, 2032) as i32;
@@ -396,6 +405,42 @@ pub fn gen_ctx(rng: &mut Rng, expr: &str, allow_bound: bool) -> String {
     } else {
         items.join(";")
     }
+}
+
+/// the holiday days listed in a generated context token (`ph=…`, `sh=…`)
+fn ctx_days(ctx: &str) -> Vec<i64> {
+    let mut v = Vec::new();
+    for item in ctx.split(';') {
+        if let Some(l) = item.strip_prefix("ph=").or_else(|| item.strip_prefix("sh=")) {
+            v.extend(l.split(',').filter_map(|x| x.parse::<i64>().ok()));
+        }
+    }
+    v
+}
+
+/// a day for a given context: half of the time next to one of its holidays (before, on, after,
+/// a few days around: this is where `PH`/`SH` selectors and their offsets change state)
+pub fn gen_day_ctx(rng: &mut Rng, ctx: &str) -> i64 {
+    let hs = ctx_days(ctx);
+    if !hs.is_empty() && rng.chance(1, 2) {
+        let h = *rng.pick(&hs);
+        let d = h + *rng.pick(&[-3, -2, -1, -1, 0, 0, 0, 1, 1, 2, 3, 7, 10, -10]);
+        if ast::date_of(d).is_some() {
+            return d;
+        }
+    }
+    gen_day(rng)
+}
+
+pub fn gen_instant_ctx(rng: &mut Rng, ctx: &str) -> String {
+    let d = gen_day_ctx(rng, ctx);
+    let ns: u64 = match rng.below(6) {
+        0 => 0,
+        1 => 86_399_999_999_999,
+        2 => rng.below(86_400) * 1_000_000_000 + rng.below(1_000_000_000),
+        _ => rng.below(1440) * 60_000_000_000,
+    };
+    format!("{d}:{ns}")
 }
 
 pub fn gen_instant(rng: &mut Rng) -> String {
@@ -535,15 +580,39 @@ pub fn gen_for(suite: &str, tier: &str, rng: &mut Rng, emit: &mut dyn FnMut(Stri
                 let e = gen_expr::expr(rng, &cfg);
                 let ee = enc(&e);
                 let ctx = gen_ctx(rng, &e, false);
-                let d0 = gen_day(rng);
+                let d0 = gen_day_ctx(rng, &ctx);
                 for k in 0..scale(6, 12) as i64 {
-                    let d = if k < 2 { d0 + k } else { gen_day(rng) };
+                    let d = if k < 2 { d0 + k } else { gen_day_ctx(rng, &ctx) };
                     emit(format!("c01.sched {d} {ctx} {ee}"));
                 }
                 if e.contains("sun") || e.contains("dawn") || e.contains("dusk") {
                     let co = rng.pick(&["48.85:2.35:Europe/Paris", "-33.86:151.2:Australia/Sydney", "64.1:-21.9:Atlantic/Reykjavik", "1.35:103.8:Asia/Singapore", "40.7:-74.0:America/New_York"]);
                     let c2 = if ctx == "-" { format!("co={co}") } else { format!("{ctx};co={co}") };
                     emit(format!("c01.sched {} {c2} {ee}", gen_day(rng)));
+                }
+            }
+            // calendar enumerations: every nth-weekday selector and every week number on the days
+            // where month lengths, leap rules and ISO year boundaries matter
+            let wd = ["Mo", "Tu", "We", "Th", "Fr", "Sa", "Su"];
+            let special_years = [1900, 2000, 2023, 2024, 2100, 2400, 9999];
+            for y in special_years {
+                let mut days: Vec<i64> = (ymd(y, 2, 1)..=ymd(y, 3, 1)).collect();
+                days.extend(ymd(y, 12, 22)..=ymd(y, 12, 31));
+                days.extend(ymd(y, 1, 1)..=ymd(y, 1, 10));
+                days.extend([ymd(y, 4, 30), ymd(y, 5, 1), ymd(y, 6, 30), ymd(y, 7, 31), ymd(y, 8, 31), ymd(y, 10, 31), ymd(y, 11, 30)]);
+                for (i, w) in wd.iter().enumerate() {
+                    for n in [1, 2, 3, 4, 5, -1, -2, -3, -4, -5] {
+                        let e = enc(&format!("{w}[{n}] 10:00-12:00"));
+                        for d in days.iter().filter(|d| (**d + i as i64) % 2 == 0 || thorough) {
+                            emit(format!("c01.sched {d} - {e}"));
+                        }
+                    }
+                }
+                for wk in [1, 2, 51, 52, 53] {
+                    let e = enc(&format!("week {wk} 10:00-12:00"));
+                    for d in (ymd(y, 12, 20)..=ymd(y, 12, 31)).chain(ymd(y, 1, 1)..=ymd(y, 1, 12)) {
+                        emit(format!("c01.sched {d} - {e}"));
+                    }
                 }
             }
             if thorough {
@@ -568,8 +637,9 @@ pub fn gen_for(suite: &str, tier: &str, rng: &mut Rng, emit: &mut dyn FnMut(Stri
                 }
             }
             for _ in 0..scale(3_000, 60_000) {
-                let e = gen_expr::expr(rng, &cfg);
-                let t = gen_instant(rng);
+                let e = if rng.chance(1, 4) { gen_expr::hint_template(rng) } else { gen_expr::expr(rng, &cfg) };
+                let ctx = gen_ctx(rng, &e, false);
+                let t = gen_instant_ctx(rng, &ctx);
                 let len_ns: i64 = match rng.below(10) {
                     0 => 60_000_000_000,
                     1 => rng.range(1, 86_400) * 1_000_000_000,
@@ -580,16 +650,22 @@ pub fn gen_for(suite: &str, tier: &str, rng: &mut Rng, emit: &mut dyn FnMut(Stri
                     _ => rng.range(1, 14) * 86_400_000_000_000 + rng.range(0, 86_399) * 1_000_000_000,
                 };
                 if let Some(to) = add_ns(&t, len_ns) {
-                    emit(format!("{op} {t} {to} {} {}", gen_ctx(rng, &e, false), enc(&e)));
+                    emit(format!("{op} {t} {to} {ctx} {}", enc(&e)));
                 }
             }
         }
         "c03" => {
             for _ in 0..scale(3_000, 60_000) {
-                let e = if rng.chance(1, 20) && !samples.is_empty() { rng.pick(&samples).clone() } else { gen_expr::expr(rng, &cfg) };
+                let e = if rng.chance(1, 20) && !samples.is_empty() {
+                    rng.pick(&samples).clone()
+                } else if rng.chance(1, 4) {
+                    gen_expr::hint_template(rng)
+                } else {
+                    gen_expr::expr(rng, &cfg)
+                };
                 let ee = enc(&e);
                 let ctx = gen_ctx(rng, &e, false);
-                let t = gen_instant(rng);
+                let t = gen_instant_ctx(rng, &ctx);
                 emit(format!("c03.state {t} {ctx} {ee}"));
                 let h = *rng.pick(&[1, 7, 40, 400, 800]);
                 let w = format!("c03.nextw {t} {h} {ctx} {ee}");
@@ -651,10 +727,10 @@ pub fn gen_for(suite: &str, tier: &str, rng: &mut Rng, emit: &mut dyn FnMut(Stri
         }
         "c16" => {
             for _ in 0..scale(3_000, 60_000) {
-                let e = gen_expr::expr(rng, &cfg);
+                let e = if rng.chance(1, 4) { gen_expr::hint_template(rng) } else { gen_expr::expr(rng, &cfg) };
                 let ee = enc(&e);
                 let ctx = gen_ctx(rng, &e, false);
-                let t = gen_instant(rng);
+                let t = gen_instant_ctx(rng, &ctx);
                 // find the exact answer on a window, then place bounds around it
                 let probe = format!("c03.nextw {t} 800 {ctx} {ee}");
                 let res = result_of(&probe).unwrap_or_default();
@@ -692,11 +768,11 @@ pub fn gen_for(suite: &str, tier: &str, rng: &mut Rng, emit: &mut dyn FnMut(Stri
                 }
                 let ee = enc(&e);
                 let ctx = gen_ctx(rng, &e, false);
-                let d0 = gen_day(rng);
+                let d0 = gen_day_ctx(rng, &ctx);
                 for k in 0..4 {
-                    emit(format!("c17.sched {} {ctx} {ee}", if k < 2 { d0 + k } else { gen_day(rng) }));
+                    emit(format!("c17.sched {} {ctx} {ee}", if k < 2 { d0 + k } else { gen_day_ctx(rng, &ctx) }));
                 }
-                let t = gen_instant(rng);
+                let t = gen_instant_ctx(rng, &ctx);
                 if let Some(to) = add_ns(&t, rng.range(1, 20) * 86_400_000_000_000) {
                     emit(format!("c17.iter {t} {to} {ctx} {ee}"));
                 }
